@@ -970,28 +970,69 @@ func ruleMemberPrecedence(c *Ctx) []Obligation {
 }
 
 // r2tTerminates: no path through the statement list reaches its end.
-func r2tTerminates(info *types.Info, list []ast.Stmt) bool {
+func r2tTerminates(info *types.Info, list []ast.Stmt) bool { return r2tTermIn(info, list, true) }
+
+// r2tTermIn: brkLeaves — an unlabelled break leaves the region (false inside a switch / select
+// of the region, where it only leaves that statement).
+func r2tTermIn(info *types.Info, list []ast.Stmt, brkLeaves bool) bool {
 	if len(list) == 0 {
 		return false
+	}
+	clauses := func(bodies [][]ast.Stmt, hasDefault bool) bool {
+		if !hasDefault {
+			return false
+		}
+		for _, b := range bodies {
+			if !r2tTermIn(info, b, false) {
+				return false
+			}
+		}
+		return true
 	}
 	switch last := list[len(list)-1].(type) {
 	case *ast.ReturnStmt:
 		return true
 	case *ast.BranchStmt:
-		return last.Tok != token.FALLTHROUGH
+		switch last.Tok {
+		case token.FALLTHROUGH:
+			return false
+		case token.BREAK:
+			return brkLeaves || last.Label != nil
+		}
+		return true
 	case *ast.BlockStmt:
-		return r2tTerminates(info, last.List)
+		return r2tTermIn(info, last.List, brkLeaves)
+	case *ast.LabeledStmt:
+		return r2tTermIn(info, []ast.Stmt{last.Stmt}, brkLeaves)
 	case *ast.IfStmt:
-		if last.Else == nil || !r2tTerminates(info, last.Body.List) {
+		if last.Else == nil || !r2tTermIn(info, last.Body.List, brkLeaves) {
 			return false
 		}
 		switch e := last.Else.(type) {
 		case *ast.BlockStmt:
-			return r2tTerminates(info, e.List)
+			return r2tTermIn(info, e.List, brkLeaves)
 		case *ast.IfStmt:
-			return r2tTerminates(info, []ast.Stmt{e})
+			return r2tTermIn(info, []ast.Stmt{e}, brkLeaves)
 		}
 		return false
+	case *ast.SwitchStmt:
+		var bodies [][]ast.Stmt
+		def := false
+		for _, cl := range last.Body.List {
+			cc := cl.(*ast.CaseClause)
+			def = def || cc.List == nil
+			bodies = append(bodies, cc.Body)
+		}
+		return clauses(bodies, def)
+	case *ast.TypeSwitchStmt:
+		var bodies [][]ast.Stmt
+		def := false
+		for _, cl := range last.Body.List {
+			cc := cl.(*ast.CaseClause)
+			def = def || cc.List == nil
+			bodies = append(bodies, cc.Body)
+		}
+		return clauses(bodies, def)
 	default:
 		return IsPanicCall(info, last)
 	}
